@@ -504,7 +504,9 @@ async fn scenario(rng: &mut StdRng, transport: &str) -> Outcome {
 }
 
 /// An outbound open whose negotiation is never answered: it must time out into one open failure.
-async fn timeout_scenario(rng: &mut StdRng, transport: &str) -> Outcome {
+/// `burst` = 0: one to three requests; otherwise that many requests issued in one go (far more than the
+/// 256 unacknowledged outbound streams yamux allows: the ones above wait for a stream slot, not for an answer).
+async fn timeout_scenario(rng: &mut StdRng, transport: &str, burst: usize) -> Outcome {
     let Some((a, b)) = pair(transport, SHORT_OPEN_TIMEOUT) else { return Outcome::discard("node setup") };
     let canary = Canary::start();
     let _ = a.app.send(AppCmd::Dial(b.addr.clone())).await;
@@ -527,12 +529,17 @@ async fn timeout_scenario(rng: &mut StdRng, transport: &str) -> Outcome {
     b.gate.hold();
     tokio::time::sleep(Duration::from_millis(30)).await;
     let from = a.log.0.lock().unwrap().len();
-    let held_opens = rng.gen_range(1..=3);
+    let held_opens = if burst > 0 { burst } else { rng.gen_range(1..=3) };
+    let issue_started = Instant::now();
     for _ in 0..held_opens {
-        a.open(rng.gen_range(0..2), b.peer).await;
+        // a burst goes to the protocol the remote has (its streams would be negotiated if B ran)
+        a.open(if burst > 0 { 0 } else { rng.gen_range(0..2) }, b.peer).await;
         opens += 1;
     }
     let issued = Instant::now();
+    // a burst has to be out well within the open timeout, otherwise the first requests time out (freeing
+    // stream slots) before the last ones are made and nothing waits for a slot
+    let slow_issue = burst > 0 && issued.duration_since(issue_started) > SHORT_OPEN_TIMEOUT / 2;
     // the timeout fires at A while B is silent (3x the timeout), then B runs again
     let _ = a.log.wait(SHORT_OPEN_TIMEOUT * 3, |l| unanswered(l, from) == 0).await;
     b.gate.release();
@@ -547,14 +554,14 @@ async fn timeout_scenario(rng: &mut StdRng, transport: &str) -> Outcome {
     let timeout_failures = a.log.0.lock().unwrap().iter().skip(from)
         .filter(|v| v["s"]["a"] == "nev" && v["ret"]["k"] == "failed" && v["ret"]["err"].as_str().map(|e| e.contains("Timeout")).unwrap_or(false))
         .count();
-    if !overloaded && !closed {
+    if !overloaded && !closed && !slow_issue {
         a.log.push(json!({"e": "nquiesce"}));
         b.log.push(json!({"e": "nquiesce"}));
     }
     let segments = finish(a, b).await;
     Outcome {
         segments,
-        discarded: if overloaded { Some("overloaded") } else { None },
+        discarded: if overloaded { Some("overloaded") } else if slow_issue { Some("burst issued too slowly") } else { None },
         opens,
         overlapping: false,
         held_opens: accepted,
@@ -563,7 +570,7 @@ async fn timeout_scenario(rng: &mut StdRng, transport: &str) -> Outcome {
     }
 }
 
-/// `plan`: comma separated `transport:kind:count` with kind `mix` | `timeout`.
+/// `plan`: comma separated `transport:kind:count` with kind `mix` | `timeout` | `burst<N>`.
 pub fn run_net(plan: &str, seed: u64, b0: usize) -> (Vec<String>, Value) {
     let rt = tokio::runtime::Builder::new_multi_thread().worker_threads(4).enable_all().build().expect("runtime");
     let mut rng = StdRng::seed_from_u64(seed ^ 0xC08);
@@ -579,7 +586,13 @@ pub fn run_net(plan: &str, seed: u64, b0: usize) -> (Vec<String>, Value) {
         while runs < n && attempts < 3 * n + 3 {
             attempts += 1;
             let before = PANICS.lock().unwrap().len();
-            let out = if kind == "timeout" { rt.block_on(timeout_scenario(&mut rng, transport)) } else { rt.block_on(scenario(&mut rng, transport)) };
+            let out = if kind == "timeout" {
+                rt.block_on(timeout_scenario(&mut rng, transport, 0))
+            } else if let Some(n) = kind.strip_prefix("burst") {
+                rt.block_on(timeout_scenario(&mut rng, transport, n.parse().expect("burst size")))
+            } else {
+                rt.block_on(scenario(&mut rng, transport))
+            };
             if let Some(why) = out.discarded {
                 discarded += 1;
                 *reasons.entry(why).or_insert(0usize) += 1;
